@@ -168,6 +168,7 @@ def boundary_points(cls, b, shape, rs):
     elif cls in ("Tanh", "Exp", "SoftPlus"):
         vec([0.0, 4.0, -4.0], "moderate")
         vec([1.0, -1.0, np.nextafter(1.0, 0), np.nextafter(0.0, 1), -1e-300], "primitive-singularity")
+        vec([50.0, -50.0, 800.0, -800.0, 1e3, -1e3, 1e4, -1e4], "magnitude")       # exp / expm1 overflow thresholds
     else:
         vec([0.0, 1e4, -1e4], "magnitude")
     return pts
